@@ -14,6 +14,7 @@ import (
 	"net/url"
 	"os"
 	"runtime"
+	"strings"
 	"sync"
 
 	"github.com/whoisnian/glb/httpd"
@@ -128,7 +129,7 @@ func runCase(regs []int, universe []route, reqs []request, names []string) rec {
 		}
 	}
 	index := map[string]int{}
-	for _, q := range reqs {
+	for qi, q := range reqs {
 		p.calls, p.infoOK = 0, false
 		func() {
 			defer func() {
@@ -138,7 +139,15 @@ func runCase(regs []int, universe []route, reqs []request, names []string) rec {
 					p.last = ob{ID: -1, V: make([][]int, len(names))}
 				}
 			}()
-			req := &http.Request{Method: q.M, URL: &url.URL{Path: vio.Bytes(q.P)}, Header: http.Header{}}
+			u := &url.URL{Path: vio.Bytes(q.P)}
+			if qi%2 == 1 {
+				// the same path as a server would deliver it for a percent-encoded request target ("/a%2Fb", "/%61"):
+				// Path is what the router is specified on, RawPath merely remembers the client's spelling
+				if raw := fullyEscaped(u.Path); raw != u.Path {
+					u.RawPath = raw
+				}
+			}
+			req := &http.Request{Method: q.M, URL: u, Header: http.Header{}}
 			mux.ServeHTTP(httptest.NewRecorder(), req)
 		}()
 		if r.OK && p.calls != 1 {
@@ -162,6 +171,20 @@ func runCase(regs []int, universe []route, reqs []request, names []string) rec {
 		r.Obs = append(r.Obs, di)
 	}
 	return r
+}
+
+// fullyEscaped percent-encodes every byte of a path after the leading slash (inner slashes included): a valid alternative
+// spelling of the same path, as url.URL.EscapedPath accepts it
+func fullyEscaped(p string) string {
+	if len(p) < 2 || p[0] != '/' {
+		return p
+	}
+	var sb strings.Builder
+	sb.WriteByte('/')
+	for i := 1; i < len(p); i++ {
+		fmt.Fprintf(&sb, "%%%02X", p[i])
+	}
+	return sb.String()
 }
 
 func main() {
